@@ -1,9 +1,14 @@
 // C03: reduced length, geodesic scales and area under a geodesic
+#include "C01_tool.hpp"
 #include "geodcommon.hpp"
 #include "C01_line.hpp"
 #include "C01_xline.hpp"
 #include "C01_routes.hpp"
 using namespace gd; using namespace gv; using namespace routes;
+static std::string sci(double x) { char b[40]; std::snprintf(b, sizeof b, "%.6g", x); return b; }
+// the geodesic scales are derivatives of positions with respect to positions: their error is a length error over the length scale of the
+// surface, the smallest principal radius of curvature of the ellipsoid (b^2/a at the equator of an oblate, a^2/b at the poles of a prolate one)
+static double rho_min(double a, double f) { double b = a * (1 - f); return std::fmin(b * b / a, a * a / b); }
 
 static double tolS(double f, double a, double a12) {   // documented area accuracy 0.1 m^2 (WGS84), x4, growing with |f| for the series
   double x = std::fabs(f); double base = x <= 1 / 150.0 + 1e-12 ? 0.4 : x <= 1 / 100.0 + 1e-12 ? 0.4 : x <= 1 / 50.0 + 1e-12 ? 1.5 : NAN;
@@ -17,9 +22,9 @@ static void check_vs_oracle(const std::string& name, const Out& x, double acc, d
   const Res& r = x.r;
   double tol = tol_len(acc, scale, (double)p.a12);
   if ((x.have & hm) && !(std::fabs(r.m12 - (double)p.m12) <= 2 * tol)) bad("m12-" + name, x.name + ": reduced length off by " + std::to_string((r.m12 - (double)p.m12) * 1e9) + " nm (tolerance " + std::to_string(2 * tol * 1e9) + ")");
-  double tM = 2 * tol / ea + 8e-16 * (1 + std::fabs((double)p.M12));
-  if ((x.have & hM) && !(std::fabs(r.M12 - (double)p.M12) <= tM * std::fmax(1.0, std::fabs((double)p.M12)))) bad("M12-" + name, x.name + ": geodesic scale M12 = " + std::to_string(r.M12) + " off by " + std::to_string(r.M12 - (double)p.M12));
-  if ((x.have & hM) && !(std::fabs(r.M21 - (double)p.M21) <= tM * std::fmax(1.0, std::fabs((double)p.M21)))) bad("M21-" + name, x.name + ": geodesic scale M21 = " + std::to_string(r.M21) + " off by " + std::to_string(r.M21 - (double)p.M21));
+  double tM = 2 * tol / rho_min(ea, (double)L.f) + 8e-16 * (1 + std::fabs((double)p.M12));
+  if ((x.have & hM) && !(std::fabs(r.M12 - (double)p.M12) <= tM * std::fmax(1.0, std::fabs((double)p.M12)))) bad("M12-" + name, x.name + ": geodesic scale M12 = " + sci(r.M12) + " off by " + sci(r.M12 - (double)p.M12) + " (tolerance " + sci(tM * std::fmax(1.0, std::fabs((double)p.M12))) + ")");
+  if ((x.have & hM) && !(std::fabs(r.M21 - (double)p.M21) <= tM * std::fmax(1.0, std::fabs((double)p.M21)))) bad("M21-" + name, x.name + ": geodesic scale M21 = " + sci(r.M21) + " off by " + sci(r.M21 - (double)p.M21) + " (tolerance " + sci(tM * std::fmax(1.0, std::fabs((double)p.M21))) + ")");
   // S12 is discontinuous where the path touches a pole (jumps by c2*dalpha): compare only when the path stays off the poles
   LD mx = fabsl(L.calp0);   // max |sin beta| along the geodesic = |cos alp0|
   bool nearpole = (double)mx > 0.9986 || std::fabs(lat1) > 87;   // within 3 degrees of a pole S12 is ill-conditioned (c2 * d(alpha))
@@ -39,7 +44,7 @@ template<class G, class Ln> static void direct_config(const std::string& name, c
   for (auto& x : o) {
     if (L) check_vs_oracle(name, x, acc, scale, tS, ea, lat1, *L, *p);
     if (std::isnan(acc) || !P) continue;
-    double tol = tol_len(acc, scale, P->a12), tM = 2 * tol / ea + 8e-16 * (1 + std::fabs(P->M12) + std::fabs(P->M21));
+    double tol = tol_len(acc, scale, P->a12), tM = 2 * tol / rho_min(ea, f) + 8e-16 * (1 + std::fabs(P->M12) + std::fabs(P->M21));
     const Res& r = x.r;
     if ((x.have & hm) && !(std::fabs(r.m12 - P->m12) <= 2 * tol)) bad("route-m12-" + name, x.name + ": m12 = " + std::to_string(r.m12) + " but GenDirect(ALL) gives " + std::to_string(P->m12));
     if ((x.have & hM) && !(std::fabs(r.M12 - P->M12) <= tM * std::fmax(1.0, std::fabs(P->M12)) && std::fabs(r.M21 - P->M21) <= tM * std::fmax(1.0, std::fabs(P->M21))))
@@ -164,6 +169,7 @@ void gv::generate(const std::string& tier, uint64_t seed) {
     // the same segment through the Lean models of GeodesicLine and GeodesicLineExact (m12, M12, M21, S12 of GenPosition; ops of Corr/C01.lean)
     if (std::fabs(f) <= 0.2) gline::model_case(r, a, f, lat1, lon1, azi1, arc, len, false);
     xline::model_case(r, a, f, lat1, lon1, azi1, arc, len, i % 16 == 0);
+    if (i % 4 == 1) gtool::tool_case(r, a, f, lat1, lon1, azi1, arc, len);   // GeodSolve -f on the same segment
     if (std::fabs(f) > 0.02 && f != 0.5 && f != -1.0) continue;   // the inverse-interface relations keep to the flattenings they are documented for
     double lat2 = r.irange(0, 6) ? r.range(-89, 89) : r.pick(std::vector<double>{0.0, -lat1, lat1, 0.0}), lon2 = r.irange(0, 6) ? r.range(-180, 180) : lon1 + r.pick(std::vector<double>{0.0, 1e-6, 10, 90, 170, 179.5});
     if (i % 9 == 0) { lat1 = 0; lat2 = 0; }   // equatorial segments
